@@ -307,7 +307,10 @@ class ModelCacheMixin:
     def batch_eval(self, asts, n, extra_constraints=(), exact=None):
         results = self._get_batch_solutions(asts, n=n, extra_constraints=extra_constraints)
 
-        if len(results) == n or (len(asts) == 1 and asts[0].hash() in self._eval_exhausted):
+        if len(results) == n or (
+            len(extra_constraints) == 0 and len(asts) == 1 and asts[0].hash() in self._eval_exhausted
+        ):
+            # the exhaustion marks only speak about the constraints themselves, not about extra constraints
             return results
 
         remaining = n - len(results)
@@ -343,7 +346,10 @@ class ModelCacheMixin:
 
     def min(self, e, extra_constraints=(), signed=False, exact=None):
         cached = []
-        if e.hash() in self._eval_exhausted or e.hash() in self._min_exhausted:
+        exhausted = self._min_signed_exhausted if signed else self._min_exhausted
+        # the cached models only witness the optimum of the constraints themselves (no extra constraints), and the
+        # signed and unsigned optima have different witnesses
+        if len(extra_constraints) == 0 and (e.hash() in self._eval_exhausted or e.hash() in exhausted):
             # we set allow_unconstrained to False because we expect all returned values for e are returned by Z3,
             # instead of some arbitrarily assigned concrete values.
             cached = self._get_solutions(e, extra_constraints=extra_constraints, allow_unconstrained=False)
@@ -351,18 +357,19 @@ class ModelCacheMixin:
         if len(cached) > 0:
 
             def signed_key(v):
-                return v if v >= 0 else v + 2 ** len(e)
+                return v if v < 2 ** (len(e) - 1) else v - 2 ** len(e)
 
             return min(cached, key=signed_key if signed else lambda v: v)
 
         m = super().min(e, extra_constraints=extra_constraints, signed=signed, exact=exact)
-        if len(extra_constraints) == 0:
-            (self._min_signed_exhausted if signed else self._min_exhausted)[e.hash()] = e
+        if len(extra_constraints) == 0 and self.variables.issuperset(e.variables):
+            exhausted[e.hash()] = e
         return m
 
     def max(self, e, extra_constraints=(), signed=False, exact=None):
         cached = []
-        if e.hash() in self._eval_exhausted or e.hash() in self._max_exhausted:
+        exhausted = self._max_signed_exhausted if signed else self._max_exhausted
+        if len(extra_constraints) == 0 and (e.hash() in self._eval_exhausted or e.hash() in exhausted):
             cached = self._get_solutions(e, extra_constraints=extra_constraints, allow_unconstrained=False)
 
         if len(cached) > 0:
@@ -373,8 +380,8 @@ class ModelCacheMixin:
             return max(cached, key=signed_key if signed else lambda v: v)
 
         m = super().max(e, extra_constraints=extra_constraints, signed=signed, exact=exact)
-        if len(extra_constraints) == 0:
-            (self._max_signed_exhausted if signed else self._max_exhausted)[e.hash()] = e
+        if len(extra_constraints) == 0 and self.variables.issuperset(e.variables):
+            exhausted[e.hash()] = e
         return m
 
     def solution(self, e, v, extra_constraints=(), exact=None):
